@@ -524,7 +524,10 @@ PROPS["C17"] = {
                    "every list of added targets the update succeeds and yields the set versions, for every name the added "
                    "target or else exactly the old one, the same delegation structure, and the same unknown members of "
                    "targets, snapshot and timestamp; the code before the repair provably drops the snapshot's "
-                   "(old_build_snapshot_drops_extra). Correspondence: the facts of the re-loaded repository equal the "
+                   "(old_build_snapshot_drops_extra); whatever the sequence of add_target / remove_target / clear_targets "
+                   "calls, what a role lists when built is what the sequence means as assignments to one map "
+                   "(target_edits_are_assignments; the C10 driver runs this editor model on the edits of its programs). "
+                   "Correspondence: the facts of the re-loaded repository equal the "
                    "model's result member by member.",
     "level_text": "Kernel-checked preservation theorem of the editor's update path (a transcription of from_repo / build_targets / "
                   "build_snapshot / build_timestamp); differential run over random repositories with custom data and unknown members.",
